@@ -843,6 +843,10 @@ mut("c03-complete-wrappers-reverted", "C03", "location.go", "\tcase Complemented
 mut("c03-complete-wrappers-no-recursion", "C03", "location.go", "\tcase Complemented:\n\t\treturn Complemented{asComplete(v.Location)}\n", "\tcase Complemented:\n\t\treturn Complemented{v.Location}\n", ["COMPLETE-WRAPPERS|gts.asComplete|kind=Complemented"])
 mut("c03-complete-wrappers-silent-local", "C03", "location.go", "\tcase Complemented:\n\t\treturn Complemented{asComplete(v.Location)}\n", "\tcase Complemented:\n\t\tinner := asComplete(v.Location)\n\t\treturn Complemented{inner}\n", silent=True)
 
+mut("c06-idem-point-between-replaces", "C06", "location.go", "\t\tcase Between:\n\t\t\tif int(v+1) == int(u) {\n\t\t\t\treturn\n\t\t\t}\n\t\tcase Point:\n\t\t\tif v == u {\n\t\t\t\treturn\n\t\t\t}\n", "\t\tcase Between:\n\t\t\tif int(v+1) == int(u) {\n\t\t\t\treturn\n\t\t\t}\n\t\tcase Point:\n\t\t\tif v == u {\n\t\t\t\tll.Data = u\n\t\t\t\treturn\n\t\t\t}\n", silent=True, note="replacing a point by an equal point changes nothing")
+mut("c06-idem-silent-guard-mirrored", "C06", "location.go", "\t\tcase Point:\n\t\t\tif int(v) == int(u) {\n\t\t\t\tll.Data = u\n\t\t\t\treturn\n\t\t\t}\n", "\t\tcase Point:\n\t\t\tif int(u) == int(v) {\n\t\t\t\tll.Data = u\n\t\t\t\treturn\n\t\t\t}\n", silent=True, note="the same guard spelled the other way round has the same fingerprint: still the known finding, nothing new")
+mut("c06-idem-between-ranged-at-end", "C06", "location.go", "\t\tcase Ranged:\n\t\t\tif int(v) == u.Start {\n\t\t\t\tll.Data = u\n\t\t\t\treturn\n\t\t\t}\n\t\t}\n\n\tcase Point:\n", "\t\tcase Ranged:\n\t\t\tif int(v) == u.Start || int(v) == u.End {\n\t\t\t\tll.Data = u\n\t\t\t\treturn\n\t\t\t}\n\t\t}\n\n\tcase Point:\n", ["PUSH-IDEMPOTENT|gts.(*LocationList).Push|Between+Ranged|unreduced="], note="a site is also swallowed by a range that ends at it: more triples are left unreduced than the known finding lists")
+
 # ---------------------------------------------------------------- refactoring round 3
 mut("c02-normalise-silent-tagless-switch", "C02", "location.go",
     "func (ranged Ranged) Shift(i, n int) Location {\n\tif n == 0 {\n\t\treturn ranged\n\t}\n\tif n < 0 {\n\t\treturn ranged.Expand(i, n)\n\t}\n",
